@@ -64,7 +64,6 @@ Definition printed_val (n : fnote) : option Z :=
 Record wf_note (n : fnote) : Prop := {
   wf_lib : exists b, base_note (fk n) (fd n) (printed_val n) = Some b;
   wf_rest : printed_val n = None -> fv n = 0;
-  wf_plain : is_note_kind (fk n) = false -> fmode n = None /\ facc n = None;
   wf_den : (Zpos (Qden (Qred (fdur n))) <= LIMIT_DENOM)%Z;
   wf_tags : NoDup (ftags n) }.
 
@@ -171,7 +170,7 @@ Proof. induction l as [|x r IH]; [reflexivity|]. cbn [list_eqb]. rewrite String.
 (* ---- the round trip of a note ---- *)
 Theorem note_roundtrip n : wf_note n -> exists n', eval_note (note_text n) = Some n' /\ same_note n n' = true.
 Proof.
-  intros [(b & Hb) Hrest Hplain Hden Htags].
+  intros [(b & Hb) Hrest Hden Htags].
   destruct (base_note_fields _ _ _ _ Hb) as (Bk & Bd & Bo & Bdur & Bm & Ba & Bamp & Bt & Bv).
   unfold eval_note, note_text. cbn [nt_kind nt_dir nt_val nt_toks]. fold (printed_val n). rewrite Hb. cbn [obind].
   set (isn := is_note_kind (fk n)) in *. set (isd := kind_eqb (fk n) KD). set (isx := kind_eqb (fk n) KX).
@@ -193,11 +192,9 @@ Proof.
   (* 4b: the octave of a rest or continuation *)
   rewrite eval_toks_app, seg_oabs. cbn [obind]. set (m4 := with_oct m4a _).
   (* 5, 6: mode, accidental *)
-  rewrite eval_toks_app. replace (if isn then match fmode n with Some m => [TMode m] | None => [] end else [])
-    with (match (if isn then fmode n else None) with Some x => [TMode x] | None => [] end) by (destruct isn; reflexivity).
+  rewrite eval_toks_app.
   rewrite seg_mode. cbn [obind]. set (m5 := set_mode m4 _).
-  rewrite eval_toks_app. replace (if isn then match facc n with Some a => [TAcc a] | None => [] end else [])
-    with (match (if isn then facc n else None) with Some x => [TAcc x] | None => [] end) by (destruct isn; reflexivity).
+  rewrite eval_toks_app.
   rewrite seg_acc. cbn [obind]. set (m6 := set_acc m5 _).
   (* 7: dynamics *)
   rewrite eval_toks_app.
@@ -238,13 +235,11 @@ Proof.
     destruct (fk n) eqn:K; cbn [is_note_kind kind_eqb is_rest_or_cont]; lia. }
   rewrite O.
   assert (Dq : Qeq_bool (fdur n) q = true) by (apply Qeq_bool_iff; symmetry; exact Eq). rewrite Dq.
-  assert (Md : option_eqb mode_eqb (fmode n) (match (if isn then fmode n else None) with Some x => Some x | None => None end) = true).
-  { destruct isn eqn:I; [destruct (fmode n) as [x|]; [destruct x|]; reflexivity|].
-    destruct (Hplain eq_refl) as [-> _]. reflexivity. }
+  assert (Md : option_eqb mode_eqb (fmode n) (match fmode n with Some x => Some x | None => None end) = true).
+  { destruct (fmode n) as [x|]; [destruct x|]; reflexivity. }
   rewrite Md.
-  assert (Ac : option_eqb acc_eqb (facc n) (match (if isn then facc n else None) with Some x => Some x | None => None end) = true).
-  { destruct isn eqn:I; [destruct (facc n) as [x|]; [destruct x|]; reflexivity|].
-    destruct (Hplain eq_refl) as [_ ->]. reflexivity. }
+  assert (Ac : option_eqb acc_eqb (facc n) (match facc n with Some x => Some x | None => None end) = true).
+  { destruct (facc n) as [x|]; [destruct x|]; reflexivity. }
   rewrite Ac. cbn [andb]. rewrite andb_true_r.
   destruct (fk n) eqn:K; try reflexivity;
     (rewrite Amp7; [apply ampfig_eqb_refl|unfold isn, isd, isx; rewrite ?K; reflexivity]).
